@@ -222,6 +222,11 @@ def rules(ctx):
     before = len(ctx.obligations)
     formulas.flow_network_details(ctx, "R4")
     ctx.obligations[before:] = [o for o in ctx.obligations[before:] if "connection-bound" in o.id or "arc-direction" in o.id]
+    from . import order as _order
+    _b = len(ctx.obligations)
+    _order.pair_order(ctx, "R4")
+    ctx.obligations[_b:] = [o_ for o_ in ctx.obligations[_b:] if (o_.where or "").startswith((TRANSITION + "::", TCYCLE + "::")) or "pair-sites" in o_.id]
+    formulas.transition_counter_deltas(ctx, "R4")
     from .C17 import can_reach_kind_table
     can_reach_kind_table(ctx, "R4")      # depots stay connectable whatever the configuration says (else: infeasible flow, unwrap panics)
     from .C15 import three_opt_reconnection
